@@ -1200,7 +1200,7 @@ def run(ctx, model_ok=True):
             # every documented form of the dim argument on unequal dimensions, by index (no draw): scalar dA (int / float), [dA], ndarray
             calls.append((1 + i % 2, ["int", "float", "list1", "ndarray"][i % 4], None))
         if fam == "threshold":
-            calls += [(int(rng.integers(1, 3)), "list", t) for t in (1e-10, 1e-6, 1e-3)]
+            calls += [(int(rng.integers(1, 3)), "list", t) for t in (1e-10, 1e-6, 1e-3, 0.0)]   # tol = 0 is a tolerance too (falsy in Python)
         T("ppt", inst=inst, calls=calls)
         if i % 6 == 0:
             T("pt_tie", inst=inst)
@@ -1223,6 +1223,9 @@ def run(ctx, model_ok=True):
             sep_insts.append(gen_state(rng, ["ppt_plus_ent", "random", "threshold", "isotropic" if dA == dB else "random", "werner" if dA == dB else "ppt_plus_ent"][int(rng.integers(5))], dA, dB))
         else:
             sep_insts.append(gen_state(rng, "random_mixed", dA, dB))
+    # pure product states (1-term mixtures) on dA*dB > 6: they sit exactly on the boundary of the realignment and Zhang criteria
+    for (dA, dB) in [(3, 3), (2, 4), (4, 2), (3, 4), (4, 4)] * (2 if quick else 12):
+        sep_insts.append(gen_sepmix(rng, dA, dB, 1, bool(rng.integers(2))))
     for j, inst in enumerate(sep_insts):
         dA, dB = inst["dA"], inst["dB"]
         forms = ["list"]
